@@ -157,5 +157,33 @@ Proof.
   split; [apply Iok|].
   apply nodup_map_inj; [apply Ind|]. intros x y Hx Hy E. apply Iinj; auto; right; exists r; tauto.
 Qed.
+(* C04/C15 at system level: in every reachable state, on every replica, element identifiers are distinct (no element is
+   duplicated), all timestamps are in the comparison's plain range, and the size counter is the number of live elements *)
+Theorem list_sys_no_duplicates (author : op -> nat) (s : sys op) r :
+  reachable lstate op tkey loid author l_exec_remote l_ready l_init s ->
+  let st := fold_left l_exec_remote (applied _ (reps _ s r)) l_init in
+  NoDup (ids (l_nodes st)) /\ l_size st = Z.of_nat (length (l_values st)).
+Proof.
+  intros Hr st. destruct (list_sys_executable author s r Hr) as [Hx _].
+  destruct (exec_ok_invariants _ l_init lgood_nil eq_refl Hx) as [[G _] [S _]]. split; [exact G|exact S].
+Qed.
+
+(* two replicas, whatever each has applied so far: once both have caught up with the same operations (a later reachable
+   state s' in which their applied sets coincide) they hold one sequence F of distinct elements, and what each held at s
+   is a subsequence of what it holds at s' — provided its applied sequence only grew *)
+Theorem list_sys_order (author : op -> nat) (s' : sys op) r1 r2 l1 e1 l2 e2 :
+  reachable lstate op tkey loid author l_exec_remote l_ready l_init s' ->
+  applied _ (reps _ s' r1) = l1 ++ e1 -> applied _ (reps _ s' r2) = l2 ++ e2 ->
+  Permutation (l1 ++ e1) (l2 ++ e2) ->
+  exists F, NoDup F /\
+    sublist (ids (l_nodes (fold_left l_exec_remote l1 l_init))) F /\
+    sublist (ids (l_nodes (fold_left l_exec_remote l2 l_init))) F.
+Proof.
+  intros Hr E1 E2 Hp.
+  destruct (list_sys_executable author s' r1 Hr) as [X1 N1]. destruct (list_sys_executable author s' r2 Hr) as [X2 _].
+  rewrite E1 in X1, N1. rewrite E2 in X2. exact (list_order_consistent l1 e1 l2 e2 N1 Hp X1 X2).
+Qed.
 Print Assumptions list_sys_convergence.
 Print Assumptions list_sys_executable.
+Print Assumptions list_sys_no_duplicates.
+Print Assumptions list_sys_order.
